@@ -68,6 +68,12 @@ def apply_edit(cfg, ed):
     if op == 'env':
         c['env'] = 1 - c['env']
         return c, set(present), 'env'
+    if op == 'fix':
+        # the cause of a failed reload is repaired WITHOUT touching the file: the missing directory is created
+        if c.get('dir') or not any(c[x] is not None and c[x].get('bad') == 1 for x in SLOTS):
+            return None
+        c['dir'] = 1
+        return c, set(x for x in SLOTS if c[x] is not None and c[x].get('bad') == 1), 'fix'
     if op == 'toggle':
         if c[s] is None:
             c[s] = {'np': 1, 'cmd': 0, 'gt': 0, 'envn': 0, 'st': 0}
@@ -96,11 +102,14 @@ def apply_edit(cfg, ed):
 
 
 def isbad(cfg):
-    return any(cfg[s] is not None and cfg[s].get('bad') for s in SLOTS)
+    return any(cfg[s] is not None and (cfg[s].get('bad') == 2 or (cfg[s].get('bad') == 1 and not cfg.get('dir')))
+               for s in SLOTS)
 
 
 def render(path, cfg):
     ws, envs = [], []
+    if cfg.get('dir'):
+        os.makedirs(os.path.join(os.path.dirname(path), 'missing-dir'), exist_ok=True)
     for s in SLOTS:
         w = cfg[s]
         if w is None:
@@ -177,6 +186,8 @@ def sequences(shard, tier):
             for mid in mids:
                 seq = ([e1] if e1 else []) + [(v, s_)] + ([mid] if mid else []) + [(v, s_)]
                 yield seq
+                if v == 'bad1':
+                    yield seq[:-1] + [('fix', None)]
                 if tier != 'quick' and mid is None:
                     for e3 in E:
                         yield seq + [e3]
